@@ -3,7 +3,8 @@
    Each is closed by `exact <lemma>` and followed by Print Assumptions (audited by ./check on every run). *)
 From V.lib Require Import Base.
 From V.c05 Require Import C05Model C05FragModel C05OptProofs C05HistProofs C05GhostProofs C05ReadProofs C05RoundProofs
-  C05CodecModel C05CodecProofs C05EncHistModel C05EncHistProofs C05EncRoundProofs C05EncCodecProofs.
+  C05CodecModel C05CodecProofs C05EncHistModel C05EncHistProofs C05EncRoundProofs C05EncCodecProofs
+  C05SegModel C05SegProofs C05EncSegProofs.
 
 (* C05_roundtrip for histories in which the sample additions are INTERLEAVED WITH Encode calls (run_hops: every Encode
    runs SetTrunDataOffsets and MdatBox.Size on the live fragment, the additions that follow see that state; encode_state
@@ -151,6 +152,21 @@ Theorem C05_base_is_moof_start :
     get_full_samples (with_base (decoded_view fe 1000 []) 1000) (Some (mkTrex 1 0 0 0)) <> Ok (added_fulls [1] 1 ops).
 Proof. exact base_is_moof_start. Qed.
 Print Assumptions C05_base_is_moof_start.
+
+(* the same at the level of a DECODED segment (any head, any fragments with emsg / other boxes before the moof, after the
+   mdat and between the fragments): the base of every decoded fragment is the stream position of ITS MOOF BOX
+   (moof_starts = position of the fragment's first box + sizes of the boxes in front of the moof, moof_starts_frag_starts),
+   and Fragment.GetFullSamples on it is get_full_samples with exactly that base: the segment theorems
+   (C05_segment_roundtrip_emsg, _any, ...) read through seg_get_full, so they are statements about this base *)
+Theorem C05_segment_base_is_moof_start : forall head its b pos0,
+  head_ok head = true -> forallb item_kinds its = true ->
+  exists st, seg_decode b pos0 (seg_stream head its) = Ok st /\
+             map dfr_base (file_frags st) = map Some (moof_starts (pos0 + xsum head) its) /\
+             (forall f tx start trafs pabs data,
+                In f (file_frags st) -> dr_moof f = Some (start, trafs) -> dr_mdat f = Some (pabs, data) ->
+                seg_get_full f tx = get_full_samples (with_base (mkDfrag trafs data 0 pabs) start) tx).
+Proof. exact segment_base_is_moof_start. Qed.
+Print Assumptions C05_segment_base_is_moof_start.
 
 (* the hypotheses of C05_roundtrip_with_encodes are satisfiable by a non-trivial history: three tracks, a plain Encode
    after the second addition (one trun exists, its offset is written), one after the fourth (three truns), an unknown
